@@ -7,6 +7,7 @@ import Driver.RegStream
 import Driver.EngineStream
 import Driver.ClusterStream
 import Driver.RespStream
+import Driver.ClusterSysStream
 /-
 hwdriver: reads
     stream <name>
@@ -33,6 +34,7 @@ def dispatch (stream : String) : Option (String → String → CaseOut) :=
   | "engine" => some engineCase
   | "members" => some membersCase
   | "resp" => some respCase
+  | "clustersys" => some clusterSysCase
   | "provider" => some providerCase
   | "regsched" => some regSchedCase
   | _ => none
